@@ -16,8 +16,11 @@ def lerp_impls(F):
 
 def summary(ctx, F, body, inline_f32=True):
     def inl(fn, b):
-        # the integer impls go through the f32 impl: inline that one only
-        return inline_f32 and b.get("impl_trait") == LERP and b.get("impl_self") == "f32"
+        # the integer impls go through the f32 impl: inline that one, and the crate's own private helpers (a shared
+        # formula or conversion function), but no other Lerp impl
+        if b.get("impl_trait") == LERP:
+            return inline_f32 and b.get("impl_self") == "f32"
+        return F.body_unit[b["id"]][0] == "mina_core" and not b.get("impl_trait")
     eng = pse.Engine(F, inline=inl)
     ps = eng.run(body)
     ctx.count_paths(ps, body)
@@ -94,23 +97,30 @@ def rule_integers(ctx, F, rule="R3"):
         if not re.fullmatch(r"[iu](8|16|32|64|128|size)", ty):
             continue
         have.add(ty)
-        ps = summary(ctx, F, b, inline_f32=False)
+        ps = summary(ctx, F, b)
         rets = [p for p in ps if p.outcome == "return"]
         ok = len(rets) == 1
         detail = ""
         if ok:
             r = rets[0].ret
-            # (from_f32(round(<f32 as Lerp>::lerp(&(a as f32), &(b as f32), x))) as Some).0
+            # (from_f32(round(V)) as Some).0  with V the f32 interpolation of (a as f32, b as f32, x)
             conv = r[1][1] if r[0] == "field" and r[1][0] == "variant" else None
-            ok = conv is not None and conv[0] == "call" and conv[1].endswith("FromPrimitive>::from_f32")
+            ok = conv is not None and conv[0] == "call" and \
+                (conv[1].endswith("FromPrimitive>::from_f32") or conv[1].endswith("FromPrimitive::from_f32"))
             detail = show(r)
             if ok:
                 rnd = conv[2][0]
                 ok = rnd[0] == "call" and rnd[1].endswith("f32>::round")
                 if ok:
-                    l = rnd[2][0]
-                    ok = l[0] == "call" and l[1] == "<f32 as %s>::lerp" % LERP and \
-                        l[2] == (("&", ("cast", "IntToFloat", A, "f32")), ("&", ("cast", "IntToFloat", B, "f32")), X)
+                    try:
+                        pv = terms.poly(rnd[2][0])      # casts are the identity over Q
+                        atoms = {a for m in pv for a, e in m}
+                        ok = atoms <= {A, B, X} and terms.p_degree(pv, X) <= 1 and \
+                            terms.p_subst(pv, X, terms.p_const(0)) == terms.p_atom(A) and \
+                            terms.p_subst(pv, X, terms.p_const(1)) == terms.p_atom(B) and \
+                            _only_widened(rnd[2][0])
+                    except terms.NotPoly:
+                        ok = False
         ctx.ob(rule, "integer/%s" % ty, ok,
                "integer lerp must be checked_conversion(round(f32_lerp(a as f32, b as f32, x))) - round to nearest, "
                "no arithmetic in the narrow type, no `as` truncation; it is %s" % detail, b["span"],
@@ -118,6 +128,15 @@ def rule_integers(ctx, F, rule="R3"):
     ctx.ob(rule, "integer/impl-set", have == INT_TYPES,
            "integer Lerp impls must exist for exactly %s; found %s" % (sorted(INT_TYPES), sorted(have)),
            what="integer-impl-set")
+
+
+def _only_widened(t, parent=None):
+    """every use of the integer operands a, b is `a as f32` / `b as f32`: no arithmetic happens in the narrow type"""
+    if t in (A, B):
+        return parent is not None and parent[0] == "cast" and parent[1] == "IntToFloat"
+    if not isinstance(t, tuple):
+        return True
+    return all(_only_widened(x, t) for x in t if isinstance(x, tuple))
 
 
 COMP = ["x", "y", "z", "w"]
